@@ -295,10 +295,10 @@ var universe = []Obj{
 	// lists
 	L(I("1"), I("2")), L(D("1"), I("2")), L(I("1"), Str("a")), L(I("1"), Str("A")),
 	L(I("1"), Chr("a")), L(I("1"), Chr("A")), L(L(I("1"), I("2")), Str("x")), L(L(I("1"), I("2")), Str("X")),
-	L(Sym("abc")), L(Sym("ABC")), L(I(two64)), L(R("1/2")), L(D("0.5")), L(Obj{K: "nil"}),
+	L(Sym("abc")), L(Sym("ABC")), L(I(two64)), L(R("1/2")), L(R("1/3")), L(D("0.5")), L(Obj{K: "nil"}),
 	// vectors
 	V(I("1"), I("2")), V(D("1"), I("2")), V(Str("a")), V(Str("A")), V(Chr("a")), V(Chr("A")), V(),
-	V(I(two64)), V(R("1/2")), V(D("0.5")), V(L(I("1"), I("2"))),
+	V(I(two64)), V(R("1/2")), V(R("1/3")), V(D("0.5")), V(L(I("1"), I("2"))),
 	// nil, the empty list, t
 	{K: "nil"}, L(), {K: "t"},
 }
